@@ -108,6 +108,15 @@ def ref_b58encode(b):
     return '1' * z + out
 
 
+def ref_b58decode(t):
+    """textbook inverse of ref_b58encode for texts over the alphabet"""
+    z = len(t) - len(t.lstrip('1'))
+    v = 0
+    for c in t:
+        v = v * 58 + B58.index(c)
+    return b'\0' * z + (v.to_bytes((v.bit_length() + 7) // 8, 'big') if v else b'')
+
+
 def ref_b58check(payload):
     return ref_b58encode(payload + dsha(payload)[:4])
 
@@ -220,6 +229,23 @@ def err_class(e):
         if type(e) is cls and pat in msg:
             return name
     return f'Other:{type(e).__name__}:{msg[:80]}'
+
+
+class ImplRaised(Exception):
+    """the real code raised on a call the property covers (valid inputs): reported as a violation"""
+
+    def __init__(self, label, exc, case=None):
+        super().__init__(label)
+        self.label, self.exc, self.case = label, exc, case
+
+
+def must(label, fn, case=None):
+    """run implementation code that must not fail on this input; any exception becomes a violation
+    (raised as ImplRaised and turned into run.violation by check_case)"""
+    try:
+        return fn()
+    except Exception as e:
+        raise ImplRaised(label, e, case) from e
 
 
 def guarded(fn, conv=lambda x: x):
@@ -411,7 +437,23 @@ def do_xstr(run, model, case):
     mod = model.call('xk_of_string', t=thex(t), **v)
     run.case(case, nontrivial=True, sample=False)
     run.count('xstr:' + ('ok' if 'ok' in impl else impl['err']))
-    run.compare('C06.xk_of_string', case, impl, mod)
+    bad = None
+    if 'ok' in impl:
+        # accepted => the string is the Base58Check form of 78 bytes and the key object shows exactly those fields
+        k = impl['ok']
+        raw = ref_b58decode(t) if t and all(c in B58 for c in t) else b''
+        e, chk = raw[:-4], raw[-4:]
+        if len(e) != 78 or chk != dsha(e)[:4]:
+            bad = f'accepted {t!r}, which is not the Base58Check form of 78 bytes'
+        elif (k['depth'], k['n'], k['cc']) != (e[4], int.from_bytes(e[9:13], 'big'), e[13:45].hex()) or \
+                k['key'] != (e[45:] if k['kind'] == 'pub' else e[46:]).hex():
+            bad = f'key parsed from {t!r} shows fields {k} that differ from the encoded bytes'
+    elif impl['err'].startswith('Other:'):
+        bad = f'from_extended_key_string({t!r}) raised {impl["err"]}'
+    if bad:
+        run.violation(case, bad, signature={'op': 'xstr', 't': t, 'ledger': case['ledger']})
+    else:
+        run.compare('C06.xk_of_string', case, impl, mod)
 
 
 # ---- derivation -----------------------------------------------------------------------------------
@@ -438,7 +480,8 @@ def do_derive(run, model, case):
             run.compare('C06.from_seed', case, impl_root, mod_root)
         return
     key = impl_root['ok']
-    if not run.compare('C06.from_seed', case, {'ok': key_obs(key)}, mod_root):
+    if 'ok' not in mod_root:
+        run.disagreement('C06.from_seed', case, 'ok', mod_root)
         return
     mkey = mod_root['ok']
     trace = model.call('derive_trace', k=mkey, path=path)
@@ -484,16 +527,25 @@ def do_derive(run, model, case):
             return f'{where}: script address differs'
         return None
 
-    obs = observe(key)
+    obs = must('observing the master key (extended_key_string / address / identifier)', lambda: observe(key),
+               dict(case, path=[]))
     bad = monitor_node(obs, ref, 'm')
     if bad:
-        run.violation(case, bad, signature=sig)
+        run.violation(dict(case, path=[]), bad, signature=dict(sig, path=[]))
+        return
+    if obs['key']['key'].startswith('00'):
+        run.count('derive:private-key-with-leading-zero-byte')
+    if not run.compare('C06.from_seed', case, {'ok': obs['key']}, mod_root):
         return
     run.compare('C06.root', case, obs, mobserve(mkey))
     cur, rcur = key, ref
     for step, n in enumerate(path):
         where = 'm/' + '/'.join(str(x) for x in path[:step + 1])
         r = guarded(lambda: cur.child(n))
+        if 'err' in r and r['err'].startswith('Other:'):
+            run.violation(dict(case, path=path[:step + 1]), f'{where}: child({n}) raised {r["err"]}',
+                          signature=dict(sig, path=path[:step + 1]))
+            return
         rnext = rcur.child(n) if (rcur is not None and 0 <= n < (1 << 32)) else None
         mstep = trace[step] if step < len(trace) else None
         if 'ok' not in r:
@@ -505,7 +557,8 @@ def do_derive(run, model, case):
                 run.compare('C06.derive', case, r, final)
             return
         child = r['ok']
-        cobs = observe(child)
+        cobs = must(f'observing {where} (extended_key_string / address / identifier)', lambda: observe(child),
+                    dict(case, path=path[:step + 1]))
         bad = monitor_node(cobs, rnext, where)
         # public derivation of the same step (the property's second sentence)
         pr = guarded(lambda: key_obs(cur.public_key.child(n)))
@@ -520,6 +573,8 @@ def do_derive(run, model, case):
             run.violation(small, bad, signature=dict(sig, path=path[:step + 1]))
             return
         run.count('derive:index:' + ('hardened' if n >= H else 'normal'))
+        if cobs['key']['key'].startswith('00'):
+            run.count('derive:private-key-with-leading-zero-byte')
         if mstep is None or 'ok' not in mstep:
             run.disagreement('C06.ckd_priv', case, cobs['key'], mstep)
             return
@@ -527,11 +582,12 @@ def do_derive(run, model, case):
         mpub_parent = model.call('neuter', k=(mkey if step == 0 else trace[step - 1]['ok']))
         run.compare('C06.ckd_pub', case, pr, model.call('ckd_pub', k=mpub_parent, i=n))
         cur, rcur = child, rnext
-    run.compare('C06.derive', case, {'ok': key_obs(cur)}, final)
+    run.compare('C06.derive', case, {'ok': must('reading the final key', lambda: key_obs(cur))}, final)
     # string round trips of the final key (private and public), via the real parser
-    for s in (cur.extended_key_string(), cur.public_key.extended_key_string()):
+    for s in must('extended_key_string() of the final key',
+                  lambda: (cur.extended_key_string(), cur.public_key.extended_key_string())):
         back = guarded(lambda: key_obs(from_extended_key_string(led, s)))
-        orig = key_obs(cur if s.startswith(('xprv', 'tprv')) else cur.public_key)
+        orig = must('reading the final key', lambda: key_obs(cur if s.startswith(('xprv', 'tprv')) else cur.public_key))
         orig['pfp'] = '00000000'
         if back != {'ok': orig}:
             run.violation(case, f'from_extended_key_string({s}) = {back}, expected {orig}', signature=sig)
@@ -650,7 +706,8 @@ def do_account(run, model, case):
                 return out
             finally:
                 await ledger.db.close()
-        impl = loop.run_until_complete(go())
+        impl = must('Account address generation (from_dict / ensure_address_gap / get_addresses)',
+                    lambda: loop.run_until_complete(go()))
     finally:
         loop.close()
         shutil.rmtree(tmp, ignore_errors=True)
@@ -774,7 +831,7 @@ def use_words(model, name):
 
 
 def mnemonic_obj(name):
-    m = Mnemonic('en')
+    m = must("Mnemonic('en')", lambda: Mnemonic('en'))
     if name != 'english':
         m.words = wordlist(name)
     return m
@@ -824,7 +881,8 @@ def do_mndec(run, model, case):
             want = want * len(m.words) + m.words.index(t)
         if impl != {'ok': want}:
             bad = f'mnemonic_decode({s!r}) = {impl}, the words encode {want}'
-        elif m.mnemonic_encode(want).split() != toks and (not toks or m.words.index(toks[-1]) != 0):
+        elif must(f'mnemonic_encode({want})', lambda: m.mnemonic_encode(want)).split() != toks and \
+                (not toks or m.words.index(toks[-1]) != 0):
             bad = f'mnemonic_encode({want}) does not give back the words'
     elif 'ok' in impl:
         bad = f'mnemonic_decode({s!r}) accepted a word outside the list'
@@ -844,7 +902,7 @@ def do_wordlists(run, model, case):
         bad = f'word list {name} has duplicates'
     elif len(ws) < 2 or any(not w for w in ws) or any(c.isspace() for w in ws for c in w):
         bad = f'word list {name} has an empty word / whitespace / fewer than 2 words'
-    if name == 'english' and not bad and Mnemonic().words != ws:
+    if name == 'english' and not bad and must('Mnemonic()', lambda: Mnemonic()).words != ws:
         bad = 'Mnemonic() does not use the shipped english list'
     if bad:
         run.violation(case, bad, signature={'op': 'wordlists', 'words': name})
@@ -859,7 +917,7 @@ def do_make_seed(run, model, case):
     old = mnemonic_mod.randbelow
     mnemonic_mod.randbelow = lambda n: rng.randrange(n)
     try:
-        m = Mnemonic()
+        m = must('Mnemonic()', Mnemonic)
         impl = guarded(lambda: m.make_seed(num_bits=case['bits']))
     finally:
         mnemonic_mod.randbelow = old
@@ -871,9 +929,9 @@ def do_make_seed(run, model, case):
         run.violation(case, f'make_seed raised {impl}', signature=sig)
         return
     text = impl['ok']
-    i = m.mnemonic_decode(text)
+    i = must('mnemonic_decode(make_seed())', lambda: m.mnemonic_decode(text))
     h = hmac512(b'Seed version', text.encode()).hex()
-    if m.mnemonic_encode(i) != text or not h.startswith('01'):
+    if must(f'mnemonic_encode({i})', lambda: m.mnemonic_encode(i)) != text or not h.startswith('01'):
         run.violation(case, f'make_seed gave {text!r}: re-encoding or version prefix wrong', signature=sig)
         return
     run.compare('C06.mnemonic_decode', case, {'ok': i}, model.call('mn_decode', s=thex(text)))
@@ -915,7 +973,8 @@ def do_single(run, model, case):
                         'pk': acc.public_key.pubkey_bytes.hex(), 'priv_addr': acc.receiving.get_private_key(0).address}
             finally:
                 await ledger.db.close()
-        impl = loop.run_until_complete(go())
+        impl = must('single-address Account (from_dict / ensure_address_gap / get_addresses)',
+                    lambda: loop.run_until_complete(go()))
     finally:
         loop.close()
         shutil.rmtree(tmp, ignore_errors=True)
@@ -1081,6 +1140,47 @@ def gen_derive(rng, n):
                'seed': seed.hex(), 'path': path}
 
 
+def child_scalar(ref, n):
+    """private key of child n of a reference node, HMAC and modular addition only (no point multiplication)"""
+    data = (b'\0' + ref.k.to_bytes(32, 'big') if n >= H else ref.pub) + n.to_bytes(4, 'big')
+    il = int.from_bytes(hmac512(ref.cc, data)[:32], 'big')
+    if il >= ORDER or (il + ref.k) % ORDER == 0:
+        return None
+    return (il + ref.k) % ORDER
+
+
+def gen_leading_zero(rng, n):
+    """deterministic search (from the run's PRNG) for private keys whose 32-byte serialisation starts with a
+    zero byte -- as master key, as hardened child and as normal child -- each then serialised and used as the
+    parent of hardened and normal children (the hardened HMAC message contains 0x00 || ser256(k))"""
+    for j in range(n):
+        base = bytes(rng.getrandbits(8) for _ in range(rng.choice([16, 32, 64])))
+        lname = rng.choice(['main', 'main', 'regtest'])
+        kind = j % 3
+        prefix = None
+        if kind == 0:
+            for c in range(20000):
+                seed = base[:-4] + c.to_bytes(4, 'big')
+                i = hmac512(b'Bitcoin seed', seed)
+                if i[0] == 0 and 0 < int.from_bytes(i[:32], 'big') < ORDER:
+                    prefix = []
+                    break
+        else:
+            seed = base
+            ref = RefKey.from_seed(seed)
+            start = rng.randrange(H)
+            for c in range(20000):
+                idx = (start + c) % H + (H if kind == 1 else 0)
+                k = child_scalar(ref, idx) if ref is not None else None
+                if k is not None and k >> 248 == 0:
+                    prefix = [idx]
+                    break
+        if prefix is None:
+            continue
+        for tail in ([], [H], [0], [H + 1, 1], [(1 << 32) - 1], [H - 1, H]):
+            yield {'op': 'derive', 'ledger': lname, 'seed': seed.hex(), 'path': prefix + tail, 'kind': 'leading-zero-key'}
+
+
 def gen_forced(rng, n):
     for _ in range(n):
         k = rng.choice([1, 2, ORDER - 1, ORDER - 2, rng.randrange(1, ORDER)])
@@ -1226,13 +1326,18 @@ def do_vector(run, model, case):
     seed = bytes.fromhex(case['seed'])
     run.case(case, nontrivial=True)
     run.count('bip32-vector')
-    key = PrivateKey.from_seed(led, seed)
+    key = must('PrivateKey.from_seed', lambda: PrivateKey.from_seed(led, seed))
     mkey = model.call('from_seed', seed=seed.hex())['ok']
+    done = []
     for n, xpub, xprv in [(None, case['chain'][0][1], case['chain'][0][2])] + [tuple(x) for x in case['chain'][1:]]:
         if n is not None:
-            key = key.child(n)
+            done.append(n)
+            small = {'op': 'derive', 'ledger': 'main', 'seed': case['seed'], 'path': list(done)}
+            key = must(f'child({n}) on the BIP32 vector', (lambda k=key, n=n: k.child(n)), small)
             mkey = model.call('ckd', k=mkey, i=n)['ok']
-        got = (key.public_key.extended_key_string(), key.extended_key_string())
+        small = {'op': 'derive', 'ledger': 'main', 'seed': case['seed'], 'path': list(done)}
+        got = must('extended_key_string() at m/' + '/'.join(map(str, done)),
+                   (lambda k=key: (k.public_key.extended_key_string(), k.extended_key_string())), small)
         if got != (xpub, xprv):
             run.violation(case, f'BIP32 vector: at child {n} got {got}, published {(xpub, xprv)}',
                           signature={'op': 'vector', 'seed': case['seed'], 'n': n})
@@ -1245,8 +1350,25 @@ def do_vector(run, model, case):
 DISPATCH['vector'] = do_vector
 
 
+def _signature(case):
+    return {k: v for k, v in case.items() if k not in ('corrupt', 'note', 'source', 'chain')}
+
+
 def check_case(run, model, case):
-    DISPATCH[case['op']](run, model, case)
+    """one case; nothing that happens inside may abort the run"""
+    try:
+        DISPATCH[case['op']](run, model, case)
+    except ImplRaised as r:
+        small = r.case or case
+        run.violation(small, f'{r.label} raised {type(r.exc).__name__}: {str(r.exc)[:200]}',
+                      signature=_signature(small))
+    except vlib.ModelError as e:
+        FORCED_HMAC.clear()
+        run.disagreement('C06.model-error', case, None, f'ModelError: {str(e)[:300]}')
+    except Exception:
+        import traceback
+        FORCED_HMAC.clear()
+        run.disagreement('C06.harness-error', case, None, traceback.format_exc()[-1500:])
 
 
 def main(run):
@@ -1260,7 +1382,9 @@ def main(run):
         'position (every 58-way substitution for one payload in N), deletions, insertions, transpositions; 78-byte '
         'extended keys (3 ledgers) with boundary depth / child number and damaged length, version, prefix byte, '
         'off-curve or out-of-range key, also through the string form; seeds of 16..64 bytes with paths of depth 0..6 '
-        'over {0,1,2,2^31-1,2^31,2^31+1,2^32-1,random normal, random hardened, 2^32 (rejected)}; child() with forced HMAC '
+        'over {0,1,2,2^31-1,2^31,2^31+1,2^32-1,random normal, random hardened, 2^32 (rejected)}; a deterministic search for '
+        'master / hardened-child / normal-child private keys with a leading zero byte, each serialised and used as parent of '
+        'hardened and normal children; child() with forced HMAC '
         'output (tweak >= n, k+t = 0 mod n, short chain code, depth 255); real Accounts on a sqlite Database with random '
         'gap settings and usage patterns; mnemonic integers at n^k-1, n^k, n^k+1 for the 5 shipped lists and synthetic '
         'lists of 2,3,5,10 words, random integers up to 300 bits and word strings with odd whitespace / unknown words. '
@@ -1294,6 +1418,8 @@ def main(run):
     for case in gen_xparse(rng, 500 * n):
         check_case(run, model, case)
     for case in gen_derive(rng, 140 * n):
+        check_case(run, model, case)
+    for case in gen_leading_zero(rng, 6 * n):
         check_case(run, model, case)
     for case in gen_forced(rng, 200 * n):
         check_case(run, model, case)
